@@ -126,7 +126,8 @@ def expand(desc):
     n = len(desc["fixed"])
     noises = [None]
     if desc.get("mags"):
-        noises = [(i, a, sg * m) for i in range(n) for a in range(3) for m in desc["mags"] for sg in (1, -1)]
+        noises = [(i, a, sg * m) for i in desc.get("noise_atoms", range(n)) for a in range(3)
+                  for m in desc["mags"] for sg in (1, -1)]
     motions = desc.get("motions") or [(g, t) for g in desc["rots"] for t in range(len(desc["trans"]))]
     return [(g, t, nz) for nz in noises for (g, t) in motions]
 
@@ -144,7 +145,7 @@ def build(desc, items=None):
             X[bn[0], bn[1]] += bn[2]
         if nz is not None:
             X[nz[0], nz[1]] += nz[2]
-        mob[k] = X @ sp.ROT24_F[g].T + trans[t]
+        mob[k] = X @ sp.OCT48_F[g].T + trans[t]
     return F, mob
 
 
@@ -264,7 +265,9 @@ def judge(ctx, site, cls, case, fixed, mobile, w, fitted, R, ct, tt, mat, probe_
 
 
 def noise_cls(desc):
-    return "noise" if desc.get("mags") else "exact"
+    mirror = any(g >= 24 for g in desc.get("rots", [])) or any(g >= 24 for g, _ in (desc.get("motions") or []))
+    return ("mirror_" if mirror else "") + ("swapped_" if desc.get("swap") else "") + (
+        "noise" if desc.get("mags") else "exact")
 
 
 def mask_cls(mask):
@@ -325,7 +328,10 @@ def run_fit_batch(ctx, desc, focus=None):
             for k in range(m):
                 mk = mob[k].copy()
                 kw = {} if mask is None else {"atom_mask": mask.copy()}
-                f, tr = struc.superimpose(F_in, mk, **kw)
+                if desc.get("swap"):
+                    f, tr = struc.superimpose(mk, F_in, **kw)  # roles exchanged: the lattice set is the mobile one
+                else:
+                    f, tr = struc.superimpose(F_in, mk, **kw)
                 if f.shape != (n, 3) or tr.rotation.shape != (1, 3, 3):
                     ctx.violation("superimpose|shape|" + cls, "fitted/rotation have the wrong shape",
                                   {**case, "focus": k}, expected=[[n, 3], [1, 3, 3]],
@@ -340,6 +346,10 @@ def run_fit_batch(ctx, desc, focus=None):
     except Exception as e:  # noqa: BLE001
         ctx.violation("superimpose|raises_%s|%s" % (type(e).__name__, cls), "legal input raised: %s" % e, case,
                       expected="fitted, transformation", observed=repr(e)[:300])
+        return
+    if desc.get("swap"):
+        judge(ctx, "superimpose", cls, case, mob, np.broadcast_to(F, mob.shape).copy(), mask, fitted, R, ct, tt, mat,
+              probe_in, probe_out, focus)
         return
     res = judge(ctx, "superimpose", cls, case, F, mob, mask, fitted, R, ct, tt, mat, probe_in, probe_out, focus)
     if res is None:
